@@ -1,9 +1,10 @@
 import DepsDev.Proofs.C03L3Npm
 
 /-!
-# C03 layer L3 for npm, operator `none`: one comparator, prerelease candidates
+# C03 layer L3 for npm, operator `none`: one comparator, prerelease candidates (operands without tag)
 
-See `C03L3Npm` for the statement (`L3Npm`) and the proof script.
+See `C03L3Npm` for the statements and the proof script; `C03L3NpmNoneP` has the tagged operands
+and the assembled `L3Npm .none`.
 -/
 namespace DepsDev.Proofs.C03
 
@@ -13,12 +14,6 @@ set_option linter.unusedSimpArgs false
 set_option linter.unusedVariables false
 
 theorem l3_full_none : L3Full .none := by l3_full
-theorem l3_pre_lt_none : L3PreO .none .lt := by l3_pre
-theorem l3_pre_eq_none : L3PreO .none .eq := by l3_pre
-theorem l3_pre_gt_none : L3PreO .none .gt := by l3_pre
 theorem l3_part_none : L3Part .none := by l3_part
-
-theorem l3_npm_none : L3Npm .none :=
-  l3_assemble _ l3_full_none (l3_pre_assemble _ l3_pre_lt_none l3_pre_eq_none l3_pre_gt_none) l3_part_none
 
 end DepsDev.Proofs.C03
